@@ -6,6 +6,8 @@ from ..helpers.resource_matcher import ResourceMatcher
 def _find_replace(rows, fields):
     for row in rows:
         for field in fields:
+            if row[field['name']] is None:
+                continue
             for pattern in field.get('patterns', []):
                 row[field['name']] = re.sub(
                     str(pattern['find']),
